@@ -246,7 +246,9 @@ def check_text_pairs(case, ev):
     mk_text = (lambda n: G.v4_canon(n)) if fam == 4 else (lambda n: str(ipaddress.IPv6Address(n)))
     spelled = {i: t[2] for i, t in enumerate(toks) if len(t) > 2}  # another valid spelling of the same address
     toks = [t[:2] for t in toks]
-    line = " ".join(spelled.get(i, mk_text(n)) + suf for i, (n, suf) in enumerate(toks))
+    # usually all tokens on one line; "perline": one token per line (then through the stream API)
+    joiner = "\n" if case.get("perline") else " "
+    line = joiner.join(spelled.get(i, mk_text(n)) + suf for i, (n, suf) in enumerate(toks))
     if case.get("prelude"):
         # a short-lived anonymizer with OTHER options handles some of the same tokens first and is
         # dropped before the one under test is created (state keyed by object identity or by text
@@ -261,12 +263,12 @@ def check_text_pairs(case, ev):
         an, exc = guarded(G.mk, cfg, fam)
         if exc is not None:
             return core.exc_finding(exc, case, "ctor/")
-        out, exc = guarded(anonymize_ip_addr, an, line)
+        out, exc = guarded(lambda: "\n".join(anonymize_ip_addr(an, l) for l in line.split("\n")))
     else:
         fa, exc = guarded(G.file_anonymizer, cfg)
         if exc is not None:
             return core.exc_finding(exc, case, "ctor/")
-        out, exc = guarded(core.run_io, fa, line + "\n")
+        out, exc = guarded(core.run_io, fa, line + "\n", bool(case.get("nonl")))
     if exc is not None:
         return core.exc_finding(exc, case, "text/")
     parts = out.split()
@@ -279,7 +281,7 @@ def check_text_pairs(case, ev):
             imgs.append(int(ipaddress.ip_address(addr)))
         except ValueError:
             return Finding("text/output-token-not-an-address", "%r -> %r" % (line, out), case)
-    ev.case(case, len(toks) >= 2, ["text-v%d" % fam, "via-" + case["via"]] + (["non-canonical-spelling"] if spelled else []) + (["after-short-lived-anonymizer"] if case.get("prelude") else []) + (["with-len-suffix"] if any(sf for _, sf in toks) else []))
+    ev.case(case, len(toks) >= 2, ["text-v%d" % fam, "via-" + case["via"]] + (["non-canonical-spelling"] if spelled else []) + (["one-token-per-line"] if case.get("perline") else []) + (["unterminated-last-line"] if case.get("nonl") and case["via"] != "line" else []) + (["after-short-lived-anonymizer"] if case.get("prelude") else []) + (["with-len-suffix"] if any(sf for _, sf in toks) else []))
     for i in range(len(toks)):
         for j in range(i + 1, len(toks)):
             k, k2 = G.cpl(toks[i][0], toks[j][0], W), G.cpl(imgs[i], imgs[j], W)
@@ -369,7 +371,7 @@ def _text_case(draw):
             suf = "/%d" % draw(st.integers(0, W))
         toks.append([n, suf])
         if fam == 6 and draw(st.booleans()):
-            toks[-1].append(draw(G.v6_spelling(n, allow_len=False, allow_v4tail=False))[0])
+            toks[-1].append(draw(G.v6_spelling(n, allow_len=False, allow_v4tail=True))[0])
     toks = toks or [[0x01020304 if fam == 4 else 1, ""]]
     prelude = None
     if draw(st.integers(0, 2)) == 0:
@@ -377,7 +379,7 @@ def _text_case(draw):
     from .c05 import MASKS
 
     img_of = draw(st.sampled_from(MASKS)) if fam == 4 and draw(st.integers(0, 3)) == 0 else None
-    return {"fam": fam, "cfg": cfg, "toks": toks, "via": draw(st.sampled_from(["line", "line", "io"])), "prelude": prelude, "img_of": img_of}
+    return {"fam": fam, "cfg": cfg, "toks": toks, "via": draw(st.sampled_from(["line", "line", "io"])), "prelude": prelude, "img_of": img_of, "nonl": draw(st.integers(0, 3)) == 0, "perline": draw(st.integers(0, 2)) == 0}
 
 
 def t_text(shard, nshards, seed, ev, known, n=500):
